@@ -593,14 +593,21 @@ class Engine:
                     rec["reason"] = w.get("reason", "")
 
     def list_functions(self, gb, wd, q):
-        rc, out, *_ = sh(["goto-instrument", "--reachable-call-graph", gb], cwd=wd, timeout=60)
-        fns = set()
+        """library functions reachable from the harness entry (call graph of the goto binary)"""
+        rc, out, *_ = sh(["goto-instrument", "--call-graph", gb], cwd=wd, timeout=60)
+        edges = {}
         for line in out.splitlines():
             m = re.match(r"^(\S+) -> (\S+)$", line.strip())
             if m:
-                fns.add(m.group(1)); fns.add(m.group(2))
-        lib = sorted(f for f in fns if f.startswith("binson_") or f.startswith("_"))
-        lib = [f for f in lib if not f.startswith("__")]
+                edges.setdefault(m.group(1), set()).add(m.group(2))
+        seen, todo = set(), [q.function]
+        while todo:
+            f = todo.pop()
+            if f in seen:
+                continue
+            seen.add(f)
+            todo.extend(edges.get(f, ()))
+        lib = sorted(f for f in seen if (f.startswith("binson_") or f.startswith("_")) and not f.startswith("__"))
         return lib
 
     # ---------- all queries ----------
